@@ -9,6 +9,7 @@ import (
 	"regexp/syntax"
 	"sort"
 	"unicode/utf8"
+	"verifharness/internal/gen"
 
 	"github.com/openGemini/openGemini/engine/index/tsi"
 )
@@ -66,7 +67,7 @@ func parseAST(p string) *ReAST {
 type PatInfo struct {
 	Pat    string    `json:"pat"`
 	AST    *ReAST    `json:"ast"`
-	VText  string    `json:"vtext"` // tagFilter.value after Init
+	VText  string    `json:"vtext"`  // tagFilter.value after Init
 	Final  *ReAST    `json:"final"`  // simplifyRegexp(Parse(pat)); op "empty" also for the emptyRegexp sentinel
 	Prefix string    `json:"prefix"` // extractRegexpPrefix
 	HasSfx bool      `json:"has_sfx"`
@@ -76,6 +77,7 @@ type PatInfo struct {
 	ALP    string    `json:"alp"`           // anchoredLiteralPrefix(pat)
 	All    bool      `json:"all"`           // regexMatchesEverything(pat)
 	Rows   []AtomRow `json:"rows"`
+	Gen    bool      `json:"gen,omitempty"` // generated from the grammar (genPattern), not from the curated list
 }
 
 // filterValueText: the value text of a regex tag filter after Init. It is part of the key of the tag-filter result cache
@@ -252,20 +254,96 @@ func probeValues(p string) []string {
 }
 
 // ---------------------------------------------------------------------------------------------------------
+// patterns from a grammar (the model starts from Go's parse tree of whatever comes out):
+//   pattern := ['(?i)'] ['^'] alt ['$']      alt := concat ('|' concat)*      concat := piece+      piece := atom [quant]
+//   atom := literal | class | '.' | '\d' | '\w' | '(' alt ')' | '(?:' alt ')' | '\b' (rare) | '^' / '$' inside (rare)
+//   quant := '*' | '+' | '?' | '{2}' | '{1,2}'
+// restricted to what the model's matcher covers exactly: ASCII / alphabet literals, byte-free of 0-2.
+
+var genLits = []string{"web", "db", "w", "d", "a", "b", "c", "ab", "we", "-", "1", "0", "x", "eb", "e", "\\.", "é", "a b", "="}
+var genClasses = []string{"[wd]", "[a-c]", "[0-9]", "[^a]", "[ab]", "[a-z]", "[^0-9]", "[eé]", "\\d", "\\w", "."}
+
+func genAtomPat(r *gen.Rand, depth int) string {
+	switch c := r.Intn(12); {
+	case c < 6:
+		return gen.Pick(r, genLits)
+	case c < 9:
+		return gen.Pick(r, genClasses)
+	case c < 11 && depth > 0:
+		if r.Bool() {
+			return "(" + genAltPat(r, depth-1) + ")"
+		}
+		return "(?:" + genAltPat(r, depth-1) + ")"
+	default:
+		return gen.Pick(r, []string{"\\b", "^", "$", ".", "a", "b"})
+	}
+}
+
+func genConcatPat(r *gen.Rand, depth int) string {
+	out := ""
+	for n := 1 + r.Intn(3); n > 0; n-- {
+		a := genAtomPat(r, depth)
+		if r.Chance(1, 4) && a != "^" && a != "$" && a != "\\b" {
+			a += gen.Pick(r, []string{"*", "+", "?", "{2}", "{1,2}"})
+		}
+		out += a
+	}
+	return out
+}
+
+func genAltPat(r *gen.Rand, depth int) string {
+	out := genConcatPat(r, depth)
+	for n := r.Intn(3); n > 0 && r.Chance(1, 2); n-- {
+		out += "|" + genConcatPat(r, depth)
+	}
+	return out
+}
+
+// genPatterns returns n distinct generated patterns that compile and are not in the curated list
+func genPatterns(r *gen.Rand, n int, have []string) []string {
+	seen := map[string]bool{}
+	for _, p := range have {
+		seen[p] = true
+	}
+	var out []string
+	for tries := 0; len(out) < n && tries < 50*n; tries++ {
+		p := genAltPat(r, 2)
+		if r.Chance(1, 3) {
+			p = "^" + p
+		}
+		if r.Chance(1, 3) {
+			p += "$"
+		}
+		if r.Chance(1, 12) {
+			p = "(?i)" + p
+		}
+		if seen[p] || len(p) > 40 {
+			continue
+		}
+		if _, err := regexp.Compile(p); err != nil {
+			continue
+		}
+		seen[p] = true
+		out = append(out, p)
+	}
+	return out
+}
+
+// ---------------------------------------------------------------------------------------------------------
 // the pattern x value matrix on the real index: every pattern of the alphabet against every value of the alphabet and
 // the pattern's own probe values (and the absent tag), through both search paths
 
 type RegexMatrix struct {
-	Kind string     `json:"kind"` // "regex"
+	Kind string `json:"kind"` // "regex"
 	// constants of the translation read from the package: maxOrValues and the three bytes marshalTagValue escapes
-	MaxOrValues int    `json:"max_or_values"`
-	Escape      [3]int `json:"escape"`
-	Perl bool       `json:"perl"`
-	Pats []*PatInfo `json:"pats"`
-	Fail []Fail     `json:"oracle"`
+	MaxOrValues int        `json:"max_or_values"`
+	Escape      [3]int     `json:"escape"`
+	Perl        bool       `json:"perl"`
+	Pats        []*PatInfo `json:"pats"`
+	Fail        []Fail     `json:"oracle"`
 }
 
-func regexMatrix(dir string, patterns []string) *RegexMatrix {
+func regexMatrix(dir string, patterns []string, generated map[string]bool) *RegexMatrix {
 	seq := uint64(1000)
 	e := &env{dir: dir, clock: 1, seq: &seq}
 	e.open()
@@ -297,6 +375,7 @@ func regexMatrix(dir string, patterns []string) *RegexMatrix {
 	e.b.Flush()
 	for pi, p := range patterns {
 		info := stagesOf(p)
+		info.Gen = generated[p]
 		x := &Expr{T: "atom", K: "k", O: "re", V: p}
 		// the show-series path evaluates the filter afresh; the select path keeps a tag-filter result cache, which is emptied
 		// here so that every pattern is measured on its own
